@@ -55,6 +55,10 @@ type hpkeJob struct {
 	Key       []int `json:"key"`
 	BaseNonce []int `json:"base_nonce"`
 	Exp       []int `json:"exp"`
+	// DHKEM(P-256) jobs (spec/C07/HpkeP256Job.tla) also cover the auth modes
+	Kem int   `json:"kem"`
+	SkS []int `json:"skS"`
+	PkS []int `json:"pkS"`
 }
 
 func jints(b []byte) []int {
@@ -220,7 +224,16 @@ func main() {
 						exp, key, base = append([]byte{}, exp...), append([]byte{}, key...), append([]byte{}, base...)
 						if int(kemID) == 0x20 && int(kdfID) == 1 && (mode == 0 || (mode == 1 && pskp == "both")) && dev == "none" {
 							ln.Job = &hpkeJob{Mode: mode, Aead: int(aeadID), Nk: len(key), IkmE: jints(v["ikmE"][:32]), PkR: jints(pkRb), Info: jints(v["info"]),
-								Psk: jints(psk), PskID: jints(pskID), Enc: jints(enc), Key: jints(key), BaseNonce: jints(base), Exp: jints(exp)}
+								Psk: jints(psk), PskID: jints(pskID), Enc: jints(enc), Key: jints(key), BaseNonce: jints(base), Exp: jints(exp), SkS: []int{}, PkS: []int{}}
+						}
+						if int(kemID) == 0x10 && int(kdfID) == 1 && ((mode%2 == 0 && pskp == "none") || (mode%2 == 1 && pskp == "both")) && dev == "none" {
+							pkSb, _ := pkS.MarshalBinary()
+							j := &hpkeJob{Kem: 0x10, Mode: mode, Aead: int(aeadID), Nk: len(key), IkmE: jints(v["ikmE"][:32]), PkR: jints(pkRb), Info: jints(v["info"]),
+								Psk: jints(psk), PskID: jints(pskID), Enc: jints(enc), Key: jints(key), BaseNonce: jints(base), Exp: jints(exp), SkS: []int{}, PkS: []int{}}
+							if mode >= 2 {
+								j.SkS, j.PkS = jints(skSb), jints(pkSb)
+							}
+							ln.Job = j
 						}
 						ln.KeyEq = bytes.Equal(terms.Eval(ctxT["key"], env), key)
 						ln.NonceEq = bytes.Equal(terms.Eval(ctxT["base_nonce"], env), base)
